@@ -45,14 +45,14 @@ def keptLines (file : List Char) (f : Filter) : List (List Char) :=
 
 /-- the adapter's `filtered` flag along a sequence of calls -/
 inductive Call
-  | loadFull (ok : Bool)               -- LoadPolicy / LoadFilteredPolicy(nil): clears the flag first
+  | loadFull (ok : Bool)               -- LoadPolicy / LoadFilteredPolicy(nil): clears the flag on success
   | loadFiltered (ok : Bool)           -- LoadFilteredPolicy(filter) / incremental: sets it on success
   | save
 deriving Repr, DecidableEq
 
 /-- `NewFilteredAdapter` starts filtered; (flag, whether SavePolicy wrote the file) -/
 def flagStep (filtered : Bool) : Call → Bool × Bool
-  | .loadFull _ => (false, false)
+  | .loadFull ok => (if ok then false else filtered, false)
   | .loadFiltered ok => (if ok then true else filtered, false)
   | .save => (filtered, !filtered)
 
